@@ -20,7 +20,13 @@ class Context:
         self.specfuns = {}
         tree = ast.parse(specfun_source)
         self.opaque = set()
+        self.spec_consts = {}
         for st in tree.body:
+            if isinstance(st, ast.Assign) and isinstance(st.targets[0], ast.Name) and st.targets[0].id.isupper() and st.targets[0].id != "OPAQUE":
+                val = ast.literal_eval(st.value)
+                if isinstance(val, list) and all(isinstance(x, int) for x in val):
+                    val = SymSeq(conc_array(val), 0, len(val), "list")
+                self.spec_consts[st.targets[0].id] = val
             if isinstance(st, ast.FunctionDef):
                 self.specfuns[st.name] = SpecFun(st)
             if isinstance(st, ast.Assign) and isinstance(st.targets[0], ast.Name) and st.targets[0].id == "OPAQUE":
@@ -45,6 +51,7 @@ class Context:
         self.findings_absent = set()
         self.ghost_assumes = set()
         self.ob_cache = {}
+        self.keep = []
 
     def patterns_for(self, body, j):
         return None
@@ -203,11 +210,19 @@ def _param_value(m, name, kind, unit):
     if kind == "int":
         return z3.Int(name)
     if kind == "bool":
-        c = m.choose(2, name)
-        return bool(c)
+        return z3.Bool(name)   # forks lazily, where the code first tests it
     if kind == "optint":
         c = m.choose(2, name + ".isNone")
         return z3.Int(name) if c == 0 else None
+    if kind == "bytes_list":
+        # a mutable sequence of byte values (bytearray / list of ints 0..255)
+        ln = z3.Int(name + "_len")
+        m.assume(ln >= 0)
+        s = SymSeq(z3.Array(name, z3.IntSort(), z3.IntSort()), 0, ln, "list")
+        j = z3.Int("j!" + name)
+        m.assume(z3.ForAll([j], z3.And(s.arr[j] >= 0, s.arr[j] <= 255)), qf_also=False)
+        m.byte_lemma_arrays.append(s.arr)
+        return m.new_list(s)
     if kind == "bytes" or kind == "list" or kind == "str":
         ln = z3.Int(name + "_len")
         m.assume(ln >= 0)
@@ -215,6 +230,7 @@ def _param_value(m, name, kind, unit):
         if kind == "bytes":
             j = z3.Int("j!" + name)
             m.assume(z3.ForAll([j], z3.And(s.arr[j] >= 0, s.arr[j] <= 255)), qf_also=False)
+            m.byte_lemma_arrays.append(s.arr)
         if kind == "list":
             return m.new_list(s)
         return s
@@ -222,6 +238,10 @@ def _param_value(m, name, kind, unit):
         vals = kind[1]
         c = m.choose(len(vals), name)
         return vals[c]
+    if isinstance(kind, tuple) and kind[0] == "lazyenum":
+        x = z3.Int(name)
+        m.assume(z3.Or([x == v for v in kind[1]]))
+        return x
     if isinstance(kind, tuple) and kind[0] == "const":
         return kind[1]
     raise Unsupported("parameter kind %r" % (kind,))
@@ -267,9 +287,15 @@ def run_path(ctx, unit, prefix):
             m.run_ghost(unit["ghost_entry"], env)
         for r in unit.get("requires", []):
             m.assume(to_z3(m.truthy(m.eval_spec(r, env))))
+        for fname, ftext in unit.get("facts", {}).items():
+            q = to_z3(m.truthy(m.eval_spec(ftext, env)))
+            if not (z3.is_quantifier(q) and q.is_forall() and q.num_vars() == 1):
+                raise Unsupported("fact %s is not a single-variable forall" % fname)
+            m.facts[fname] = q
+            m.assume(q, qf_also=False)
         m.lemmas(unit.get("lemmas"), env, "entry")
         # vacuity: the precondition must be satisfiable on this entry case
-        if not solver.feasible(m.pc_qf, None):
+        if not m.feas(None):
             raise PathEnd()
         m.entry_feasible = True
         try:
@@ -292,9 +318,11 @@ def check_exit(m, unit, env, outcome):
         env.vars["result"] = outcome[1]
         for cl in unit.get("ensures", []):
             when = cl.get("when")
+            w = m.truthy(m.eval_spec(when, env)) if when else True
+            if w is False:
+                continue
             g = m.truthy(m.eval_spec(cl["post"], env))
             if when:
-                w = m.truthy(m.eval_spec(when, env))
                 g = simp(z3.Implies(to_z3(w), to_z3(g)))
             m.oblige("post." + cl["id"], g, detail=cl["post"], known=cl.get("known"), env=env)
         for exc, cond in unit.get("raises_when", []):
@@ -303,6 +331,7 @@ def check_exit(m, unit, env, outcome):
             check_effect_contract(m, unit, env, outcome[1])
     else:
         exc = outcome[1]
+        env.vars["exit_code"] = outcome[2] if exc == "SystemExit" and isinstance(outcome[2], int) else (1 if exc == "SystemExit" else 0)
         matched = False
         for exc2, cond in unit.get("raises_when", []):
             if exc2 == exc:
